@@ -5,7 +5,8 @@ C29, theorems about the comparator networks EXTRACTED from the running code
 * `extracted_nets_sort_all_01`: for every n = 2..24 the comparator sequence really executed by
   `Runtime._sort` sorts all 2^n 0-1 inputs (one bit-sliced kernel evaluation per n), hence by the
   0-1 principle every input — no model in between (`extracted_sorts_every_input`).
-* `extracted_eq_model`: the model network `sortNet n` is the executed one for n = 2..64.
+* `extracted_eq_model`: the model network `sortNet n` is the executed one for n = 2..32 (the Lean
+  driver comparison in harness/props/c29.py extends this to n ≤ 64).
 * `seclist_and_np_same_network`: `seclist.sort` and `np_sort` use the same comparator positions.
 * `sorted_correct_le_bound`, `np_sorted_correct_le_bound`: the model functions are correct for n ≤ 24.
 * `sortNet_sorts_partial`: Batcher's theorem is available only for n ≤ 24 (see the comment there).
@@ -19,53 +20,68 @@ open MpycV.Sort MpycV.Generated.SortNet
 variable {α κ : Type}
 
 /-- the extracted comparator sequence for length n (`[]` if n was not extracted) -/
-def lookup (tbl : List (Nat × Nat × Nat)) (n : Nat) : Option Net :=
-  (tbl.find? (fun p => p.1 == n)).map (fun p => decodeNet p.2.1 p.2.2)
+def netOf (n : Nat) : Net :=
+  match sortNets.find? (fun p => p.1 == n) with
+  | some p => p.2
+  | none => []
 
-def netOf (n : Nat) : Net := (lookup sortNetCodes n).getD []
-
-def hasNet (n : Nat) : Bool := (lookup sortNetCodes n).isSome
+def hasNet (n : Nat) : Bool := (sortNets.find? (fun p => p.1 == n)).isSome
 
 /-- the tracer recognised every operation of `_sort` as a compare-exchange -/
 theorem extraction_ok : extractionOk = true := by decide
 
-/-- lengths covered: 2..64, and the proved range is 2..24 -/
+/-- lengths covered: 2..32, and the proved range is 2..24 -/
 theorem extraction_covers :
-    (List.range' 2 (boundModel - 1)).all hasNet = true ∧ bound01 = 24 ∧ boundModel = 64 := by
+    (List.range' 2 (boundModel - 1)).all hasNet = true ∧ bound01 = 24 ∧ boundModel = 32 := by
   decide +kernel
 
 /-- kernel check: each executed network (n = 2..24) sorts all 2^n 0-1 inputs -/
 theorem extracted_nets_sort_all_01 :
-    (List.range' 2 (bound01 - 1)).all (fun n => hasNet n && sortsAll01 n (netOf n)) = true := by
+    sortNets.all (fun p => decide (bound01 < p.1) || sortsAll01 p.1 p.2) = true := by
   decide +kernel
 
-/-- kernel check: the model network is the executed network, n = 2..64 -/
-theorem extracted_eq_model :
-    (List.range' 2 (boundModel - 1)).all (fun n => hasNet n && (netOf n == sortNet n)) = true := by
+/-- kernel check: the model network is the executed network, n = 2..32 -/
+theorem extracted_eq_model : sortNets.all (fun p => p.2 == sortNet p.1) = true := by
   decide +kernel
 
-/-- `seclist.sort` compares, and `np_sort` updates, exactly the positions of `_sort`'s network -/
+/-- `seclist.sort` compares, and `np_sort` updates, exactly the positions of `_sort`'s network
+(n = 2..24) -/
 theorem seclist_and_np_same_network :
-    (List.range' 2 (bound01 - 1)).all (fun n =>
-      lookup seclistCodes n == some (netOf n) && lookup npCodes n == some (netOf n)) = true := by
+    seclistNets.all (fun p => p.2 == netOf p.1) = true ∧ npNets.all (fun p => p.2 == netOf p.1) = true ∧
+    seclistNets.map (·.1) = List.range' 2 (bound01 - 1) ∧ npNets.map (·.1) = List.range' 2 (bound01 - 1) := by
   decide +kernel
 
-theorem mem_range_of_bounds {n : Nat} (h2 : 2 ≤ n) (hn : n ≤ 24) : n ∈ List.range' 2 (bound01 - 1) := by
-  rw [List.mem_range']
-  exact ⟨n - 2, by simp [bound01]; omega, by omega⟩
+theorem netOf_mem {n : Nat} (h : hasNet n = true) : (n, netOf n) ∈ sortNets := by
+  unfold hasNet at h
+  unfold netOf
+  cases hf : sortNets.find? (fun p => p.1 == n) with
+  | none => rw [hf] at h; exact Bool.noConfusion h
+  | some p =>
+    have h1 := List.find?_some hf
+    have h2 := List.mem_of_find?_eq_some hf
+    simp only [beq_iff_eq] at h1
+    simp only
+    rw [← h1]; exact h2
 
-theorem netOf_sorts01 {n : Nat} (h2 : 2 ≤ n) (hn : n ≤ 24) : Sorts01 n (netOf n) := by
-  have h := List.all_eq_true.mp extracted_nets_sort_all_01 n (mem_range_of_bounds h2 hn)
-  simp only [Bool.and_eq_true] at h
-  exact sorts01_of_sortsAll01 h.2
-
-theorem netOf_eq_sortNet {n : Nat} (h2 : 2 ≤ n) (hn : n ≤ 64) : netOf n = sortNet n := by
+theorem hasNet_of_bounds {n : Nat} (h2 : 2 ≤ n) (hn : n ≤ 32) : hasNet n = true := by
   have hmem : n ∈ List.range' 2 (boundModel - 1) := by
     rw [List.mem_range']
     exact ⟨n - 2, by simp [boundModel]; omega, by omega⟩
-  have h := List.all_eq_true.mp extracted_eq_model n hmem
-  simp only [Bool.and_eq_true, beq_iff_eq] at h
-  exact h.2
+  exact List.all_eq_true.mp extraction_covers.1 n hmem
+
+theorem netOf_sorts01 {n : Nat} (h2 : 2 ≤ n) (hn : n ≤ 24) : Sorts01 n (netOf n) := by
+  have hmem := netOf_mem (hasNet_of_bounds h2 (by omega))
+  have h := List.all_eq_true.mp extracted_nets_sort_all_01 _ hmem
+  simp only [Bool.or_eq_true] at h
+  rcases h with h | h
+  · have h' : bound01 < n := of_decide_eq_true h
+    simp only [bound01] at h'; omega
+  · exact sorts01_of_sortsAll01 h
+
+theorem netOf_eq_sortNet {n : Nat} (h2 : 2 ≤ n) (hn : n ≤ 32) : netOf n = sortNet n := by
+  have hmem := netOf_mem (hasNet_of_bounds h2 hn)
+  have h := List.all_eq_true.mp extracted_eq_model _ hmem
+  simpa using h
 
 /-- the executed network for n = 2..24 sorts EVERY input of that length by key (any linear order, ties
 allowed, either comparison direction) and outputs a permutation — no model network involved. -/
@@ -79,7 +95,7 @@ example : KeepOk (fun a b : Int => decide (a < b)) (fun a => a) := keepOk_of_ltO
 /-- PARTIAL.  Full statement (Batcher's merge-exchange theorem, Knuth TAOCP 5.2.2M):
 `∀ n, 2 ≤ n → Sorts01 n (sortNet n)`.  Proved here only for n ≤ 24, by kernel evaluation of all 2^n
 0-1 inputs of the network extracted from the code, which equals `sortNet n`.  Missing: the inductive
-argument for general n; for 24 < n ≤ 64 the model network is only known to be the executed one. -/
+argument for general n; for 24 < n ≤ 32 (kernel) / 64 (driver) the model network is only known to be the executed one. -/
 theorem sortNet_sorts_partial {n : Nat} (h2 : 2 ≤ n) (hn : n ≤ 24) : Sorts01 n (sortNet n) := by
   rw [← netOf_eq_sortNet h2 (by omega)]; exact netOf_sorts01 h2 hn
 
